@@ -39,6 +39,29 @@ def _flow_spec(r, flows=("maf", "coupling", "planar"), transformers=("affine", "
     return spec
 
 
+_P = {"loc": 1, "scale": 1, "affine": 2}
+
+
+def _maf_sibling(spec, r):
+    """Another autoregressive layer configuration with the SAME network sizes (inputs, width,
+    depth, outputs) but a different (dim, cond_dim, parameters-per-dim) split, if one exists."""
+    if spec.get("flow") != "maf" or spec.get("transformer") not in _P:
+        return None
+    d, c, tr = spec["dim"], spec.get("cond_dim") or 0, spec["transformer"]
+    cands = []
+    for d2 in (1, 2, 3, 4):
+        for c2 in (0, 1, 2):
+            for tr2, p2 in _P.items():
+                if d2 + c2 == d + c and d2 * p2 == d * _P[tr] and (d2, c2) != (d, c):
+                    cands.append((d2, c2, tr2))
+    if not cands:
+        return None
+    d2, c2, tr2 = r.choice(sorted(cands))
+    sib = dict(spec)
+    sib.update({"dim": d2, "cond_dim": c2 or None, "transformer": tr2, "seed": r.randrange(2**31)})
+    return sib
+
+
 def _direct_spec(r, kinds):
     kind = r.choice(list(kinds))
     dim = r.choice([1, 2, 2, 3])
@@ -219,7 +242,10 @@ def _bucket(prop, tier, seed, idx):
             spec = _named_spec(r, 1e-6 if wide else 1e-2, 1e6 if wide else 1e2)
         freeze = []
     elif prop == "C09":
-        spec = _flow_spec(r, flows=("maf", "maf", "coupling"))
+        spec = _flow_spec(r, flows=("maf", "maf", "coupling"), transformers=("affine", "affine", "spline", "spline", "loc", "scale"))
+        if spec["flow"] == "maf" and r.random() < 0.5:
+            spec["dim"] = r.choice([1, 2, 3, 4])
+            spec["cond_dim"] = r.choice([None, None, 1, 2])
         freeze = []
     else:  # C18
         u = r.random()
@@ -285,7 +311,16 @@ def world_for(prop, tier, seed, idx):
         w["lr"] = 0.05
     if prop == "C12":
         w["faults"] = _faults(r, hint, box, ["opt_teleport", "opt_teleport", "opt_teleport", "grad_huge", "opt_signflip", "opt_zero", "grad_nan", "grad_inf"])
-    elif prop in ("C11", "C09"):
+    if prop == "C09":
+        # history: 0-2 other layers are built in the same process before the model under test
+        pre = []
+        sib = _maf_sibling(w["model"], r)
+        if sib is not None and r.random() < 0.8:
+            pre.append(sib)
+        elif r.random() < 0.4:
+            pre.append(_fill_values(_flow_spec(r, flows=("maf", "coupling"), transformers=("affine", "loc", "scale")), r))
+        w["prelude"] = pre
+    if prop in ("C11", "C09"):
         w["faults"] = _faults(r, hint, box, ["opt_teleport", "opt_teleport", "opt_teleport", "opt_teleport", "grad_huge", "opt_signflip"], p_none=0.2)
     else:
         w["faults"] = []
@@ -386,6 +421,9 @@ def shrink_candidates(w):
         c = copy.deepcopy(w)
         del c["init_perturb"]
         yield c
+    pre = w.get("prelude", [])
+    for i in range(len(pre)):
+        yield mod(prelude=pre[:i] + pre[i + 1 :])
     if w["loop"] == "vi":
         if w["steps"] > 1:
             yield mod(steps=w["steps"] - 1)
